@@ -68,11 +68,13 @@ UNIT = dict(
                'FIX8::ff_unbounded_queue<FIX8::Logger::LogElement>::try_push': dict(c='queue_try_push', sig='bool (const FIX8::Logger::LogElement &)'),
                'FIX8::Logger::is_loggable': 'logger_is_loggable',
                'FIX8::Logger::enqueue': dict(c='logger_enqueue', sig='bool (const std::string &, FIX8::Logger::Level, const char *, const unsigned int)'),
-               'FIX8::ebitset<FIX8::Logger::Level>::operator&': 'levels_and'}),
+               'FIX8::ebitset<FIX8::Logger::Level>::operator&': 'levels_and', 'FIX8::ebitset<FIX8::Logger::Level>::has': 'levels_has', 'FIX8::ebitset<FIX8::Logger::Level>::get': 'levels_get'}),
     pre_structs='struct queue_m { int dummy; };\nstruct logelem_m { long tid; long str; unsigned level; const char *fileline; unsigned val; };\n',
     prelude=PRELUDE,
     functions=[
-        dict(q='FIX8::ebitset::operator&', filter='FIX8::ebitset', mangled='_ZNK4FIX87ebitsetINS_6Logger5LevelEjEanES2_', cname='levels_and'),
+        dict(q='FIX8::ebitset::operator&', filter='FIX8::ebitset', mangled='_ZNK4FIX87ebitsetINS_6Logger5LevelEjEanES2_', cname='levels_and', optional=True),
+        dict(q='FIX8::ebitset::has', filter='FIX8::ebitset', mangled='_ZNK4FIX87ebitsetINS_6Logger5LevelEjE3hasES2_', cname='levels_has', optional=True),
+        dict(q='FIX8::ebitset::get', filter='FIX8::ebitset', mangled='_ZNK4FIX87ebitsetINS_6Logger5LevelEjE3getEv', cname='levels_get', optional=True),
         dict(q='FIX8::Logger::is_loggable', sig=None, cname='logger_is_loggable'),
         dict(q='FIX8::Logger::enqueue', sig=None, cname='logger_enqueue'),
         dict(q='FIX8::Logger::send', sig=None, cname='logger_send'),
